@@ -598,6 +598,30 @@ func (x *gg) genMethod(sv *spec.Service, name string) {
 		m.GRPC.Headers = x.pickLocs(cands, 2, taken, "headers")
 		m.GRPC.Trailers = x.pickLocs(cands, 1, taken, "trailers")
 	}
+	// explicit Message listings of attributes that stay in the message (the rest still travels there too)
+	explicit := func(o *spec.Type, mapped ...[]spec.Loc) []spec.Loc {
+		skip := map[string]bool{}
+		for _, ls := range mapped {
+			for _, l := range ls {
+				skip[l.Attr] = true
+			}
+		}
+		var out []spec.Loc
+		for _, i := range x.r.Perm(len(o.Attrs)) {
+			if a := o.Attrs[i]; !skip[a.Name] && len(out) < 2 && (len(out) == 0 || x.chance(1, 2)) {
+				out = append(out, spec.Loc{Attr: a.Name})
+			}
+		}
+		return out
+	}
+	if o := x.objectOf(m.Payload); o != nil && m.StreamP == nil && x.chance(1, 3) {
+		m.GRPC.Message = explicit(o, m.GRPC.Metadata)
+		x.s.AddFeature("explicit-request-message")
+	}
+	if o := x.objectOf(m.Result); o != nil && (m.Stream == "" || m.Stream == "client") && x.chance(1, 3) {
+		m.GRPC.RespMessage = explicit(o, m.GRPC.Headers, m.GRPC.Trailers)
+		x.s.AddFeature("explicit-response-message")
+	}
 	if x.chance(1, 4) {
 		e := x.r.Pick("not_found", "bad_thing", "Conflict")
 		m.Errors = append(m.Errors, &spec.ErrorDecl{Name: e, Timeout: x.chance(1, 4)})
